@@ -3,7 +3,7 @@ import json
 import re
 from fractions import Fraction
 
-from common import enc_arr, enc_f, coq_q, dyadic, dec_res, run_impl, run_impl_parallel, run_cases_sharded, parse_bad
+from common import enc_arr, enc_f, enc_vec, coq_q, dyadic, dec_res, run_impl, run_impl_parallel, run_cases_sharded, parse_bad
 from framework import prove, finish
 import oracle_q as oq
 
@@ -113,6 +113,65 @@ def numerical_state_sweep(ctx):
     ctx.corr["sweep:numerical_state_histories"] = stats
 
 
+def mutation_sweep(ctx):
+    """no public method modifies the shape it is invoked on, the array it was built from (copy=False), cached edges, or
+    argument shapes: bytes of every caller-visible array before / after.  Decimal (non-dyadic) data, degrees 1..8."""
+    rng = ctx.rng
+    dec_ = lambda lo, hi: F(float(F(rng.randint(lo, hi), 10)))
+    jobs, meta = [], []
+    reps = 1 if ctx.quick() else 6
+    for _ in range(reps):
+        for n in range(1, 9):
+            c = [[dec_(-30, 30) for _ in range(n + 1)] for _ in range(2)]
+            c2 = [[dec_(-30, 30) for _ in range(rng.randint(2, 4))] for _ in range(2)]
+            c2[1] = (c2[1] + c2[1])[:len(c2[0])]
+            pt = [[c[0][0]], [c[1][0]]]
+            calls = [("evaluate", [enc_f(F(3, 8))]), ("evaluate_multi", [enc_vec([F(1, 4), F(3, 4)])]), ("evaluate_hodograph", [enc_f(F(3, 8))]),
+                     ("subdivide", []), ("elevate", []), ("specialize", [enc_f(F(1, 4)), enc_f(F(3, 4))]),
+                     ("locate", [enc_arr(pt)]), ("intersect", [["shape", "curve", enc_arr(c2)]]), ("length", [])]
+            if n <= 4:
+                calls.append(("reduce_", []))
+            if n <= 5:
+                calls.append(("self_intersections", []))
+            for m, a in calls:
+                jobs.append({"op": "probe.mutation", "args": ["curve", enc_arr(c), m, a]})
+                meta.append(("curve", n, m, c))
+        for d in range(1, 7):
+            num = (d + 1) * (d + 2) // 2
+            xs, ys = [], []
+            for k in range(d + 1):
+                for j in range(d + 1 - k):
+                    xs.append(F(float(F(j, 1) + dec_(-2, 2) / 10 + F(1, 10))))
+                    ys.append(F(float(F(k, 1) + dec_(-2, 2) / 10 + F(1, 10))))
+            t = [xs, ys]
+            t2 = [[F(float(F(1, 10))), F(float(F(11, 10))), F(float(F(1, 10)))], [F(float(F(1, 10))), F(float(F(1, 10))), F(float(F(11, 10)))]]
+            calls = [("evaluate_cartesian", [enc_f(F(1, 4)), enc_f(F(1, 2))]), ("evaluate_barycentric", [enc_f(F(1, 4)), enc_f(F(1, 4)), enc_f(F(1, 2))]),
+                     ("evaluate_cartesian_multi", [enc_arr([[F(1, 4), F(1, 2)], [F(0), F(1)]])]),
+                     ("subdivide", []), ("elevate", []), ("edges", []), ("locate", [enc_arr([[xs[0]], [ys[0]]])]), ("area", [])]
+            if d <= 3:
+                calls.append(("is_valid", []))
+            if d <= 2:
+                calls.append(("intersect", [["shape", "triangle", enc_arr(t2)]]))
+            for m, a in calls:
+                jobs.append({"op": "probe.mutation", "args": ["triangle", enc_arr(t), m, a]})
+                meta.append(("triangle", d, m, t))
+    stats = {"cases": len(jobs), "failures": 0, "methods": sorted({"%s.%s" % (k, m) for k, _, m, _ in meta}),
+             "kind": "support sweep: bytes of the receiver, the array it was built from (copy=False), cached edges and argument shapes before/after every public method"}
+    for cfg in ("pure", "speedup"):
+        res = run_impl_parallel(cfg, jobs)
+        for (kind, deg, m, nodes), r in zip(meta, res):
+            if "exc" in r:
+                # (SciPy-dependent methods raise in the pure configuration: not a mutation question)
+                continue
+            changed, exc = r["ok"]
+            if changed:
+                stats["failures"] += 1
+                if stats["failures"] <= 3:
+                    ctx.violations.append({"kind": "input-modified", "config": cfg, "op": "%s.%s" % (kind, m), "case": {"degree": deg, "nodes": nodes},
+                                           "implementation_returned": r, "verdict": "%s.%s modified: %s" % (kind, m, ", ".join(changed))})
+    ctx.corr["sweep:no_mutation_public_methods"] = stats
+
+
 def run(ctx):
     prove(ctx, DEPS)
     rng = ctx.rng
@@ -207,6 +266,7 @@ def run(ctx):
     ctx.samples.append({"correspondence": "workspace_histories", "case": {"first_ops": [list(map(str, o)) for o in metas[0][:8]] if metas else []}})
 
     numerical_state_sweep(ctx)
+    mutation_sweep(ctx)
 
     # ---- presentation independence and non-mutation through the public constructors (both configurations)
     pres_stats = {"cases": 0, "failures": 0, "kind": "support sweep: list / int array / C-order / F-order presentations; inputs unchanged"}
